@@ -336,15 +336,19 @@ def ema_seed_and_alpha(F, R):
                 continue
             if l_ not in leaves:
                 leaves.append(l_)
+        leaves = [l_[1] if (isinstance(l_, tuple) and l_ and l_[0] == 'some') else l_ for l_ in leaves]    # (a register kept in an Option)
         floaty = [l_ for l_ in leaves if any(x[0] == 'child' for x in subterms(l_))]
         if len(floaty) > 2 or (len(floaty) == 2 and not any(l_[0] == 'child' for l_ in floaty)):
             regimes_ok = False
             why_reg = 'cell %s takes %d different data-dependent forms depending on counters/parameters: %s' % (cell, len(floaty), [tstr(l_)[:50] for l_ in floaty][:3])
     R.ob('B2-ema', 'Ema:regimes', regimes_ok, 'exactly two regimes for every window length: seed with the first value, then one recursion' if regimes_ok else why_reg, v.file)
     seed_ok = False
+
+    def _is_seed(x):
+        return x[0] == 'phi' and (x[2][0] == 'child' or (x[2][0] == 'some' and x[2][1][0] == 'child')) and all(y[0] != 'child' for y in subterms(x[1]))
     for cell, tt in m.up_fields.items():
         for x in subterms(tt):
-            if x[0] == 'phi' and x[2][0] == 'child' and all(y[0] != 'child' for y in subterms(x[1])):
+            if _is_seed(x):
                 seed_ok = True
     R.ob('B2-ema', 'Ema:seed', seed_ok, 'e_0 = x_0 under a guard that does not depend on data' if seed_ok else 'no data-independent seeding branch e_0 = x_0', v.file)
     # the seeding guard must be true for the first delivered value only: integer skeleton, N = 1..8
@@ -363,7 +367,7 @@ def ema_seed_and_alpha(F, R):
                     e = sk.Skel(st)
                     for cell, tt in m.up_fields.items():
                         for x in subterms(tt):
-                            if x[0] == 'phi' and x[2][0] == 'child' and all(y[0] != 'child' for y in subterms(x[1])):
+                            if _is_seed(x):
                                 c = e.ev(x[1])
                                 if c is True and k > 1:
                                     bad.append('N=%d: the seeding branch is taken again at delivered value %d' % (N, k))
